@@ -225,7 +225,8 @@ def main():
                     cs.append({"side": "LAY", "t": {"k": "MOC", "l": l_}})
                     cs.append({"side": "BACK", "t": {"k": "LOC", "l": l_, "p": 2000, "ld": ["CLASSIC"]}})
             return cs
-        groups.append({"cur": code, "pre": some(gb, gp, gl) + some(mb, mp, ml), "post": some(mb, mp, ml) + some(gb, gp, gl)})
+        # in half of the groups the poll that brings the details fails to fetch the account FUNDS (an API error on that call only)
+        groups.append({"cur": code, "pre": some(gb, gp, gl) + some(mb, mp, ml), "post": some(mb, mp, ml) + some(gb, gp, gl), "funds_fail": rng.random() < 0.5})
     bo = run_impl_parallel("c17", [{"job": "validate_bf", "groups": ch} for ch in chunked(groups, 8)])
     bres = [r for o in bo for r in o["out"]]
     brows = []
